@@ -53,6 +53,15 @@ class RetainingMapping(MutableMapping):
         return len(self.d)
 
 
+class Lru1Mapping(RetainingMapping):
+    """Keeps only the most recently stored entry (a bounded cache: storing one key evicts the other)."""
+
+    def __setitem__(self, k, v):
+        self.log.append(('set', k))
+        self.d.clear()
+        self.d[k] = v
+
+
 def horizon(case):
     h = 10.0
     for p in case['plans']:
@@ -74,12 +83,24 @@ def run(case, max_steps=300000):
     w = World(schedule=case['sched'], trace=TRACE, modules=(A,), max_steps=max_steps)
     with w:
         sim = w.sim
-        cache = RetainingMapping() if case['cache'] == 'mapping' else None
+        cache = RetainingMapping() if case['cache'] == 'mapping' else Lru1Mapping() if case['cache'] == 'lru1' else None
 
-        async def f(key):
+        def f(key):
+            # a plain callable returning an awaitable (as the decorator's type allows); some invocations fail
+            # right at call time, before any awaitable exists
             me = len(invs)
             loop = aio.get_running_loop()
             plan = plans[me % len(plans)]
+            if plan['outcome'] == 'raise_sync':
+                rec = {'id': me, 'key': key, 'loop': loop, 'loop_name': loop.sim_name, 'gen': loop.run_gen,
+                       'caller': task_owner.get(aio.current_task()), 'enter': (sim.now, sim.steps),
+                       'exit': (sim.now, sim.steps), 'kind': 'raise', 'value': None, 'live_others': [], 'after_success': []}
+                rec['exc'] = InvFailure(me)
+                invs.append(rec)
+                raise rec['exc']
+            return body(key, me, loop, plan)
+
+        async def body(key, me, loop, plan):
             rec = {'id': me, 'key': key, 'loop': loop, 'loop_name': loop.sim_name, 'gen': loop.run_gen,
                    'caller': task_owner.get(aio.current_task()), 'enter': (sim.now, sim.steps),
                    'exit': None, 'kind': None, 'value': None, 'live_others': []}
